@@ -453,6 +453,26 @@ def cluster_random(rng, count, sort=True):
         yield f"CLUSTER blur={blur} CALLS=" + ";".join(":".join(str(v) for v in c) for c in calls)
 
 
+def indelfile_random(rng, count):
+    """what the finders hand to the writer: two unsorted lists, either of which may be empty"""
+    for _ in range(count):
+        def calls(ins, n, base):
+            out = []
+            x = rng.randrange(0, 50000)
+            for i in range(n):
+                chrom = rng.choice([1, 1, 2, 3])
+                x = rng.choice([x + rng.randrange(0, 30001), x + rng.randrange(30000, 90010), rng.randrange(0, 200000)])
+                ln = rng.choice([2500, 7000, rng.randrange(101, 90000)]) * (-1 if ins else 1)
+                out.append((ins, chrom, x - rng.randrange(0, 40000), x, base + i, rng.randrange(0, 9999), rng.randrange(0, 9999), ln))
+            rng.shuffle(out)
+            return out
+        shape = rng.choice(["both", "both", "ins-only", "del-only", "none"])
+        ni = 0 if shape in ("del-only", "none") else rng.randrange(1, 9)
+        nd = 0 if shape in ("ins-only", "none") else rng.randrange(1, 9)
+        enc = lambda cs: ";".join(":".join(str(v) for v in c) for c in cs)
+        yield f"INDELFILE INS={enc(calls(1, ni, 100))} DEL={enc(calls(0, nd, 500))}"
+
+
 def cluster_exhaustive(tier):
     import itertools
     m = 4 if tier == "quick" else 5
@@ -527,9 +547,27 @@ def _cmap_mols(rng, small=False):
         pos = sorted(rng.randrange(0, 3000000) for _ in range(k))
         if rng.random() < 0.2 and pos:
             pos.append(pos[-1])  # coincident labels
-        length = (pos[-1] if pos else 0) + rng.randrange(0, 99999)
-        mols.append((i, length, pos))
+        length = (pos[-1] if pos else 0) + rng.choice([0, rng.randrange(0, 10), rng.randrange(0, 99999), rng.randrange(0, 99999)])
+        mols.append((i, length, pos))   # length == last label: the molecule ends on a label (fractional when unit=10)
     return mols
+
+
+def readcmap_ends_on_label(rng, count):
+    """molecules whose outermost labels sit exactly at coordinate 0 and at the molecule end, coordinates with one
+    decimal (unit=10): every label of the file must come back"""
+    for _ in range(count):
+        rows = []
+        for mid in rng.sample(range(1, 40), rng.randrange(1, 4)):
+            k = rng.randrange(2, 25)
+            pos = sorted(rng.sample(range(1, 2000000), k))
+            if rng.random() < 0.5:
+                pos[0] = 0
+            for p in pos:
+                rows.append((mid, 1, p))
+            rows.append((mid, 0, pos[-1]))
+        if rng.random() < 0.5:
+            rng.shuffle(rows)
+        yield "READCMAP unit=10 extra=0 ids= ROWS=" + ",".join(f"{a}:{b}:{c}" for a, b, c in rows)
 
 
 def readcmap_random(rng, count):
